@@ -152,24 +152,9 @@ EXCUSED = ["codespan_inner_run", "autolink", "html_unclosed", "codespan_ml", "li
 
 # Genuine defects demonstrated by this check on the unchanged tree (each confirmed by goldmark on the violation
 # path); minimal documents, code locations and proposed repairs are in the C29 report.
-PROPOSED_KNOWN = [
-    {"kind": "known", "signature": {"fam": "linkdest", "cause": "code-rewritten", "kind": "codespan_inner_run"},
-     "what": "link rewriting: a backquote run longer than the opening one closes the code span one byte late (scanInlineLinks steps through the run byte by byte), so `a``[f](x)``b` has its destination rewritten inside a code span"},
-    {"kind": "known", "signature": {"fam": "linkdest", "cause": "code-rewritten", "kind": "codespan_ml"},
-     "what": "link rewriting: code-span state is per line, so a code span that continues on the next line (`x\\n[f](x)`) has a destination rewritten inside it"},
-    {"kind": "known", "signature": {"fam": "linkdest", "cause": "code-rewritten", "kind": "quote_fence"},
-     "what": "link rewriting: a fenced code block inside a block quote ('> ```') is not recognised (isFenceStart looks at the line start only), destinations inside it are rewritten"},
-    {"kind": "known", "signature": {"fam": "linkdest", "cause": "missed", "kind": "linktext_ml"},
-     "what": "link rewriting: the link stack is per line, so an inline link whose text continues on the next line ([a\\nb](x)) is not rewritten"},
-    {"kind": "known", "signature": {"fam": "linkdest", "cause": "missed", "kind": "nested_list4"},
-     "what": "link rewriting: every line indented by 4+ columns is skipped as indented code (isIndentedCode has no block context), so links in a nested list item ('    - b [x](y)') are not rewritten"},
-    {"kind": "known", "signature": {"fam": "linkdest", "cause": "missed", "kind": "bq_unbalanced"},
-     "what": "link rewriting: an unmatched backquote opens a 'code span' to the end of the line, links after it on that line are not rewritten"},
-    {"kind": "known", "signature": {"fam": "linkdest", "cause": "missed", "after": "autolink"},
-     "what": "link rewriting: an autolink <https://...> is parsed by parseHTMLTag as an open tag named 'https' that is never closed; no link after it in the file is rewritten"},
-    {"kind": "known", "signature": {"fam": "linkdest", "cause": "missed", "after": "html_unclosed"},
-     "what": "link rewriting: the HTML tag stack survives the blank line that ends an HTML block, so after an unclosed <div> no link in the rest of the file is rewritten"},
-]
+PROPOSED_KNOWN = []   # three of the eight defects found by this check were fixed in /repo (autolink, html_unclosed, codespan_inner_run: the
+# implementation-shaped model still transcribes the code BEFORE those fixes, so they stay in EXCUSED and show as model drift);
+# the other five are known findings (known-findings.json)
 
 
 def consts(ctx):
